@@ -70,11 +70,20 @@ func encLn(c *Case, lnT map[uint64]uint64) {
 
 func runHybridHistory(r *rand.Rand, o hybridOpts, t *Trace) *Case {
 	hasV, hasT, hasM := r.Intn(6) != 0, r.Intn(5) != 0, r.Intn(5) != 0
-	kind := r.Intn(4)
-	if r.Intn(2) == 0 {
-		kind = 0
-	}
+	kind := []int{0, 0, 0, 1, 1, 1, 2, 3}[r.Intn(8)]
 	p, ntrain := rndParams(r, kind, false)
+	if kind == 1 && r.Intn(2) == 0 {
+		// enough cells that "one probe" and the sub-index's own default (sqrt(nlist)) differ
+		p.nlist = 4 + r.Intn(6)
+		ntrain = p.nlist + r.Intn(3*p.nlist+4)
+	}
+	if kind == 3 && r.Intn(3) == 0 {
+		p.nlist = 4
+		ntrain = 40 + r.Intn(10)
+		if ntrain < (1 << p.nbits) {
+			ntrain = (1 << p.nbits) + r.Intn(5)
+		}
+	}
 	var vidx comet.VectorIndex
 	var tidx *comet.BM25SearchIndex
 	var midx *comet.RoaringMetadataIndex
@@ -378,7 +387,7 @@ func runHybridHistory(r *rand.Rand, o hybridOpts, t *Trace) *Case {
 			if r.Intn(8) == 0 {
 				cutoff = r.Intn(3)
 			}
-			np := []int{-1, 0, 1, p.nlist, p.nlist + 1}[r.Intn(5)]
+			np := []int{-1, 0, 1, 1, 1, 2, p.nlist, p.nlist + 1}[r.Intn(8)]
 			fk := r.Intn(4)
 			cfg := &comet.FusionConfig{VectorWeight: 1, TextWeight: 1, K: 60}
 			if r.Intn(2) == 0 {
@@ -505,6 +514,7 @@ func runHybridHistory(r *rand.Rand, o hybridOpts, t *Trace) *Case {
 				for i, q := range tqs {
 					tq[i] = in.toks(q)
 				}
+				fs, gs, k, np := fs, gs, k, np // as they are at THIS execution (the builder may be re-configured later)
 				ops = append(ops, func(c *Case) {
 					c.N(4).Vec(vq).N(len(tq))
 					for _, q := range tq {
@@ -531,6 +541,25 @@ func runHybridHistory(r *rand.Rand, o hybridOpts, t *Trace) *Case {
 				return code, res
 			}
 			code, res := run(true)
+			if code == 0 && r.Intn(4) == 0 {
+				// the SAME builder re-configured and executed again: other (or no) filters, another k, another
+				// number of probes, everything else as it was -- nothing of the first execution may linger
+				if hasM {
+					fs, gs = nil, nil
+					switch r.Intn(3) {
+					case 0:
+						fs = append(fs, rndFilter(r))
+					case 1:
+						gs = append(gs, &comet.FilterGroup{Logic: comet.OR, Filters: []comet.Filter{rndFilter(r), rndFilter(r)}})
+					}
+					s = s.WithMetadata(fs...).WithMetadataGroups(gs...)
+				}
+				k = []int{1, 2, 3, 5, 10, 50}[r.Intn(6)]
+				np = []int{0, 1, 2, p.nlist}[r.Intn(4)]
+				s = s.WithK(k).WithNProbes(np)
+				run(false)
+				t.Stat("hybrid.search_builder_reconfigured")
+			}
 			if r.Intn(6) == 0 {
 				heldRun = func() { run(false); t.Stat("hybrid.search_builder_kept_across_history") }
 			}
